@@ -25,6 +25,9 @@ the letter case of more than the keyword: equal up to letter case (theorem case_
 that fails means the generator left the domain -> harness error, never a violation.
 """
 import json
+import shutil
+import tempfile
+from pathlib import Path
 
 from .. import core, gen
 
@@ -212,10 +215,12 @@ def make_file(rng):
         f.append(ins('FVAR', *fv[k:]))
 
     def atom(name, s, sof='11.00000'):
-        aniso = rng.random() < 0.5
-        us = [num(rng, 0.01, 0.09, 5) for _ in range(3)] + [num(rng, -0.02, 0.02, 5) for _ in range(3)] if aniso else [num(rng, 0.01, 0.09, 5)]
-        return dict(kind='atom', toks=[(name, 'an'), (str(s), None)] + [(num(rng, -0.5, 1.5, 6), None) for _ in range(3)] +
-                    [(sof, None)] + [(u, None) for u in us])
+        # every form of the atom instruction: name sfac x y z [sof[11] [U[0.05] | U11 .. U12]] - trailing parameters may be left out
+        form = rng.choice(['aniso', 'aniso', 'aniso', 'iso', 'iso', 'iso'] + (['xyz', 'xyz', 'sof'] if sof == '11.00000' else ['sof']))
+        us = dict(aniso=[num(rng, 0.01, 0.09, 5) for _ in range(3)] + [num(rng, -0.02, 0.02, 5) for _ in range(3)],
+                  iso=[num(rng, 0.01, 0.09, 5)]).get(form, [])
+        return dict(kind='atom', form=form, toks=[(name, 'an'), (str(s), None)] + [(num(rng, -0.5, 1.5, 6), None) for _ in range(3)] +
+                    ([(sof, None)] if form != 'xyz' else []) + [(u, None) for u in us])
 
     i = 0
     while i < len(res0):
@@ -297,12 +302,21 @@ def canon(f):
 
 
 def render(layout, extras=None):
+    return render_spans(layout, extras)[0]
+
+
+def render_spans(layout, extras=None):
     """layout: per instruction dict(toks, wraps={boundary: (tight, indent)}, sep={boundary: n}, comment={physline: txt},
-    trail=n); boundary j is the gap after token j. extras: {instruction index: [lines inserted before it]}"""
+    trail=n); boundary j is the gap after token j. extras: {instruction index: [lines inserted before it]}.
+    Returns (lines, xstart, istart): xstart[k] = index of the first extra line in front of instruction k, istart[k] = index of
+    its own first physical line (k = len(layout): the extras at the end / the number of lines)"""
     out = []
+    xstart, istart = [], []
     for k, ly in enumerate(layout):
+        xstart.append(len(out))
         for e in (extras or {}).get(k, []):
             out.append(e)
+        istart.append(len(out))
         toks = ly['toks']
         if len(ly) == 1:                       # canonical layout: one blank between tokens
             out.append(' '.join(toks))
@@ -327,9 +341,11 @@ def render(layout, extras=None):
         for p, txt in (ly.get('comment') or {}).items():
             phys[int(p)] += txt
         out += phys
+    xstart.append(len(out))
     for e in (extras or {}).get(len(layout), []):
         out.append(e)
-    return out
+    istart.append(len(out))
+    return out, xstart, istart
 
 
 def swapcase_some(rng, s, mode):
@@ -345,6 +361,10 @@ def swapcase_some(rng, s, mode):
 COMMENTS = [' ! note', '  !comment text', ' ! C-H 0.95', '!x']
 COMMENTS_EQ = [' ! U = big', ' ! a=b', ' !=', ' ! trailing =', ' ! d=1.33, s=0.02 ! (CSD)', '  != !']
 
+
+# every way a comment can meet the instruction in front of it: '!' as a token of its own, glued to its text, glued to the last
+# token of the instruction, with '=' inside / as its last character, a second '!'
+SPELLINGS = [' ! note', ' !note 2', '!x', ' ! U = big', ' !=', ' ! d=1.33, s=0.02 ! (CSD)']
 
 MODES = ['lower', 'title', 'mixed']
 
@@ -477,13 +497,24 @@ def transform(rng, f, kind, where=None):
         p = [0, k // 2 + k % 2, k][(v // 3) % 3] if k else 0          # k = 2: line 0, 1, 2; k = 1: 0, 1, 1
         ly[i]['comment'] = {p: rng.choice(COMMENTS_EQ if f[i]['kind'] != 'titl' else COMMENTS)}
         detail = dict(instr=f[i]['toks'][0][0], mode=mode, wraps=k, commented=p)
+    elif kind == 'comment-spell':
+        # systematic part: every spelling of a comment behind instruction i (on one line)
+        i, v = where
+        sp = [x for x in SPELLINGS if '=' not in x] if f[i]['kind'] == 'titl' else SPELLINGS
+        ly[i]['comment'] = {0: sp[v % len(sp)]}
+        detail = dict(instr=f[i]['toks'][0][0], ntoks=len(f[i]['toks']), spelling=sp[v % len(sp)])
     elif kind == 'blankline':
-        for k in rng.sample(range(n + 1), rng.randint(1, 5)):
+        for k in (where if where is not None else rng.sample(range(n + 1), rng.randint(1, 5))):
             extras[k] = [rng.choice(['', ' ', '      '])] * rng.randint(1, 2)
     elif kind in ('commentline', 'commentline='):
-        for k in rng.sample(range(1, n + 1), rng.randint(1, 4)):
-            extras[k] = [rng.choice(['  some text', ' ! remark', '    C99 1 0.1 0.2 0.3 11.0 0.05', ' DFIX 1.5 C1 C2'] if kind == 'commentline'
-                                    else ['  x = y', ' ! a = b', '   ends with ='])]
+        for k in (where if where is not None else rng.sample(range(1, n + 1), rng.randint(1, 4))):
+            pool = (['  some text', ' ! remark', '    C99 1 0.1 0.2 0.3 11.0 0.05', ' DFIX 1.5 C1 C2'] if kind == 'commentline'
+                    else ['  x = y', ' ! a = b', '   ends with ='])
+            if kind == 'commentline':
+                # an instruction that is switched off: an indented copy of an instruction of this file
+                off = [' '.join(t for t, _ in x['toks']) for x in f if x['kind'] not in ('titl', 'rem', 'dsr')]
+                pool = pool + [' ' * rng.randint(1, 4) + rng.choice(off) for _ in range(4)]
+            extras[k] = [rng.choice(pool) for _ in range(rng.choice([1, 1, 2]))]
     elif kind.startswith('case-'):
         role = dict(kw='kw', elem='el', atom='an', ratom='an', resi='cls', suffix='kw', dsr='kw2', **{'rem=': 'kw'})[kind[5:]]
         mode = rng.choice(['lower', 'title', 'mixed', 'upper'])
@@ -586,15 +617,32 @@ def casings(e):
     return sorted({e.upper(), e.lower(), e.capitalize()})
 
 
-def observe(lines, elements=None):
+def observe(lines, elements=None, inc=None):
+    """inc = dict(name, span=[s, e]): the lines s .. e-1 are written to the include file `name`, the rest with a '+name' line in
+    their place to a .res file next to it, and that one is read with read_file()"""
     from shelxfile import Shelxfile
-    from shelxfile.atoms.atom import Atom
     shx = Shelxfile()
-    text = '\n'.join(lines) + '\n'
+    tmp = None
     try:
-        shx.read_string(text)
+        if inc:
+            s, e = inc['span']
+            tmp = Path(tempfile.mkdtemp(prefix='c05inc'))
+            (tmp / inc['name']).write_text('\n'.join(lines[s:e]) + '\n')
+            (tmp / 'main.res').write_text('\n'.join(lines[:s] + ['+' + inc['name']] + lines[e:]) + '\n')
+            shx.read_file(tmp / 'main.res')
+            lines = None
+        else:
+            shx.read_string('\n'.join(lines) + '\n')
     except Exception as e:
         return dict(error=type(e).__name__)
+    finally:
+        if tmp:
+            shutil.rmtree(tmp, ignore_errors=True)
+    return _observe(shx, lines, elements)
+
+
+def _observe(shx, lines, elements):
+    from shelxfile.atoms.atom import Atom
     o = {}
     atoms = []
     for a in shx.atoms:
@@ -618,8 +666,13 @@ def observe(lines, elements=None):
     o['restraint_errors_empty'] = not getattr(shx, 'restraint_errors', ['unset'])
     objs = []
     starts = []
-    for i, (raw, item) in enumerate(zip(lines, shx._reslist)):
-        if raw.startswith(' ') or raw == '':
+    for i, (raw, item) in enumerate(zip(lines, shx._reslist) if lines is not None else [(None, x) for x in shx._reslist]):
+        if raw is None:
+            # include files: the positions in the line list are the business of the splice, not of this property (blank lines
+            # of the include file may or may not be spliced in) - the instruction objects in their order
+            if isinstance(item, str):
+                continue
+        elif raw.startswith(' ') or raw == '':
             continue
         if isinstance(item, str) and item == '' and raw[:4].upper() not in ('SFAC', 'FVAR', 'SYMM'):
             continue                       # consumed by the continuation loop
@@ -757,6 +810,7 @@ def evaluate(ctx, cases, stream=None):
     ctx.stream('pair')
     ctx.stream('lines')
     ctx.stream('class')
+    ctx.stream('include')
     # the canonical text `a` is shared by all pairs of one file: it is sent to the driver and observed once per run of pairs
     reqs, slot = [], {}
     for c in cases:
@@ -765,6 +819,14 @@ def evaluate(ctx, cases, stream=None):
             if k not in slot:
                 slot[k] = len(reqs)
                 reqs.append(dict(p='C05', op='lines', lines=c[side]))
+        if c.get('inc'):
+            # hypotheses of theorem include_layout_invariance: the text in front of the include file and the include file itself
+            for side in ('a', 'b'):
+                s_, e_ = c['inc'][side]
+                for k in (tuple(c[side][:s_]), tuple(c[side][s_:e_])):
+                    if k not in slot:
+                        slot[k] = len(reqs)
+                        reqs.append(dict(p='C05', op='lines', lines=list(k)))
     ans = ctx.driver.batch(reqs)
     seen = {}
 
@@ -780,8 +842,8 @@ def evaluate(ctx, cases, stream=None):
         kind = c['kind']
         ra, rb = ans[slot[tuple(c['a'])]], ans[slot[tuple(c['b'])]]
         oa, ob = obs(c['a'], c.get('elements')), observe(c['b'], c.get('elements'))
-        key = [kind, c['a'], c['b']]
-        tags = ['kind=' + kind] + (['instr=' + c['detail']['instr'][:4].upper()] if c.get('detail', {}).get('instr') else [])
+        key = [kind, c['a'], c['b']] + ([c['inc']] if c.get('inc') else [])
+        tags = ['kind=' + kind] + (['include'] if c.get('inc') else []) + (['instr=' + c['detail']['instr'][:4].upper()] if c.get('detail', {}).get('instr') else [])
         ctx.count(key, nontrivial=c['a'] != c['b'], tags=tags,
                   sample=dict(kind=kind, detail=c.get('detail'), b=[x for x, y in zip(c['b'], c['a'] + [''] * len(c['b'])) if x != y][:3]))
         # the generator must stay inside the domain of the theorems: both layouts valid, same normal form
@@ -802,6 +864,25 @@ def evaluate(ctx, cases, stream=None):
                     f'({json.dumps(va, default=str)[:160]} vs {json.dumps(vb, default=str)[:160]})')
             ctx.fail(sig, what, dict(case=c, stream='pair', expected=oa.get(d), actual=ob.get(d),
                                      model=dict(norm_a=ra['spec'], norm_b=rb['spec'])), kind='property')
+        # --- include: the same pair, a block of instructions read from a '+filename' include file through read_file()
+        if c.get('inc'):
+            (sa, ea), (sb, eb) = c['inc']['a'], c['inc']['b']
+            pre_a, pre_b = ans[slot[tuple(c['a'][:sa])]]['spec'], ans[slot[tuple(c['b'][:sb])]]['spec']
+            blk_a, blk_b = ans[slot[tuple(c['a'][sa:ea])]]['spec'], ans[slot[tuple(c['b'][sb:eb])]]['spec']
+            if pre_a is None or pre_b is None or blk_a is None or blk_b is None or up(blk_a) != up(blk_b):
+                raise RuntimeError(f'C05 generator left the domain of include_layout_invariance (kind {kind}): norm of the include file '
+                                   f'{blk_a!r:.200} / {blk_b!r:.200}, of the text in front {pre_a is not None} / {pre_b is not None}')
+            ia, ib = [observe(c[s_], c.get('elements'), dict(name=c['inc']['name'], span=c['inc'][s_])) for s_ in ('a', 'b')]
+            d = first_diff(ia, ib)
+            if d is not None:
+                va, vb = ia.get(d), ib.get(d)
+                if d == 'logical-lines':
+                    va, vb = f'{len(ia["starts"])} instructions', f'{len(ib["starts"])} instructions'
+                inc_what = c.get('detail', {}).get('include')
+                ctx.fail(f'C05|{kind}|include|{d}', f'layout change "{kind}" inside / around a "+filename" include file ({inc_what}; read_file) changes '
+                         f'the model: {d} differ ({json.dumps(va, default=str)[:160]} vs {json.dumps(vb, default=str)[:160]})',
+                         dict(case=c, stream='include', expected=ia.get(d), actual=ib.get(d),
+                              include_a=c['a'][c['inc']['a'][0]:c['inc']['a'][1]], include_b=c['b'][c['inc']['b'][0]:c['inc']['b'][1]]), kind='property')
         # --- element identity against the construction (spec side: the generator knows which elements the file defines)
         if c.get('elements'):
             els = [e.upper() for e in c['elements']]
@@ -883,7 +964,9 @@ KINDS = ['sfac-forms', 'wrap1', 'wrap-tight', 'wrapk', 'wrap-empty', 'blanks', '
          'case-rem=', 'case-elem', 'case-atom', 'case-ratom', 'case-resi', 'case-suffix', 'wrap+case', 'dsr-forms', 'mixed']
 
 
-def make_case(rng, f, kind, where=None):
+def make_case(rng, f, kind, where=None, inc=None):
+    """inc = (i0, i1): the instructions i0 .. i1-1 (with the blank / comment lines in front of them and behind them) are
+    ALSO read from a '+filename' include file through read_file(), in both layouts"""
     t = transform(rng, f, kind, where)
     if t is None:
         return None
@@ -892,10 +975,15 @@ def make_case(rng, f, kind, where=None):
     if kind == 'case-rem=':
         a_extras = {k: [x.replace('rem', 'REM', 1) for x in v] for k, v in extras.items()}
     if a_extras:
-        a = render(canon(f), a_extras)
+        a, ax, ai = render_spans(canon(f), a_extras)
     else:
-        a = f[0].get('_a') or f[0].setdefault('_a', render(canon(f)))
-    c = dict(kind=kind, detail=detail, a=a, b=render(ly, extras), elements=f[0].get('elements'))
+        a, ax, ai = f[0].get('_a') or f[0].setdefault('_a', render_spans(canon(f)))
+    b, bx, bi = render_spans(ly, extras)
+    c = dict(kind=kind, detail=detail, a=a, b=b, elements=f[0].get('elements'))
+    if inc:
+        i0, i1 = inc
+        c['inc'] = dict(name=rng.choice(['restr.inc', 'part2.ins', 'Frag_1.txt']), a=[ax[i0], ai[i1]], b=[bx[i0], bi[i1]])
+        c['detail'] = dict(detail, include=[f[i0]['toks'][0][0], i1 - i0])
     return c
 
 
@@ -911,7 +999,7 @@ def class_queries(rng):
 def run(ctx):
     ctx.rule = ('pairs (canonical text, transformed text) of generated valid files (header with every SFAC form, 7-17 instructions out of '
                 'every keyword of the dispatch chain in its parameter forms, DSR commands, FRAG..FEND, 2-9 restraints of 12 kinds incl. '
-                'class/number suffixes, FVAR, iso/aniso atoms in PART/AFIX/RESI groups that are closed or still open at HKLF, HKLF forms, '
+                'class/number suffixes, FVAR, atoms in every form (name sfac x y z [sof [U | U11..U12]]) in PART/AFIX/RESI groups that are closed or still open at HKLF, HKLF forms, '
                 'residual REM lines, END, suggested WGHT, Q-peaks); one transformation kind per pair (29 kinds, see KINDS) or all valid ones '
                 'mixed; first a systematic part: every instruction of the first files with its keyword in another case, continued over up '
                 'to three lines, a comment containing "=" on the first/middle/last of them; distinct by (kind, both texts); non-trivial = '
@@ -939,6 +1027,37 @@ def run(ctx):
             c = make_case(rng, f, 'one-instr', (i, i + fi))
             if c:
                 cases.append(c)
+    # 1b. systematic: every spelling of a comment behind every form (keyword, number of tokens; atoms: every number of
+    #     parameters from 'name sfac x y z' on) that occurs in the first files
+    forms_seen = set()
+    for f in files[:nsys]:
+        for i, instr in enumerate(f):
+            k = (instr['kind'], '' if instr['kind'] in ('atom', 'qpeak', 'fragatom') else instr['toks'][0][0].split('_')[0], len(instr['toks']))
+            if k in forms_seen:
+                continue
+            forms_seen.add(k)
+            for v in range(len(SPELLINGS)):
+                cases.append(make_case(rng, f, 'comment-spell', (i, v)))
+    # 1c. systematic: a block of instructions is read from a '+filename' include file (read_file): blank / comment lines as its first
+    #     and last lines, comments and continuation on its first and last instruction; then a random kind on a random block
+    ninc = 40 if thorough else 8 if esc else 4
+    for fi, f in enumerate(files):
+        hk = next(k for k in range(len(f)) if f[k]['toks'][0][0] == 'HKLF')
+        for r in range(2 if fi < ninc else 0):
+            i0 = rng.randint(1, hk - 1)
+            i1 = min(hk, i0 + rng.randint(1, 8))
+            for kind, where in [('commentline', [i0]), ('commentline', [i1]), ('commentline', [i0, i1]), ('commentline=', [i0]), ('commentline=', [i1]),
+                                ('blankline', [i0]), ('blankline', [i1]), ('comment', i0), ('comment=', i1 - 1), ('one-instr', (i0, fi + r)),
+                                ('one-instr', (i1 - 1, fi + r + 3)), ('comment-spell', (i1 - 1, fi + r))]:
+                c = make_case(rng, f, kind, where, inc=(i0, i1))
+                if c:
+                    cases.append(c)
+        i0 = rng.randint(1, hk - 1)
+        c = make_case(rng, f, rng.choice(KINDS), inc=(i0, min(hk, i0 + rng.randint(1, 12))))
+        if c:
+            cases.append(c)
+    ctx.extra['include_part'] = (f'2 blocks of each of the first {ninc} files x 12 layout changes at the first / last line of the include file; '
+                                f'one random kind on a random block of every file')
     # 2. random: every kind on every file
     for fi, f in enumerate(files):
         for kind in KINDS:
